@@ -18,7 +18,7 @@ use std::cmp::Ordering;
 use tz::{DateTime, LocalTimeType};
 
 #[allow(clippy::too_many_arguments)]
-fn check_new(l: &mut Local, y: i32, mo: u8, d: u8, h: u8, mi: u8, s: u8, ns: u32, off: i32) {
+pub fn check_new(l: &mut Local, y: i32, mo: u8, d: u8, h: u8, mi: u8, s: u8, ns: u32, off: i32) {
     let ltt = LocalTimeType::with_ut_offset(off).unwrap();
     let valid = cal::valid_civil(y as i64, mo, d, h, mi, s, ns);
     let r = facade::dt_new(y, mo, d, h, mi, s, ns, ltt);
